@@ -300,7 +300,7 @@ var sims = map[string]sim.SimFunc{
 		})
 	},
 	"c11r": func(c *sim.Ctx) {
-		tcpsim.Run(c, tcpsim.RunCfg{Lifecycle: true, Bidir: true, Gen: tcpsim.GenCfg{MaxConns: 8, AllowNoEnd: true, AllowRST: true, CloseFlush: true, Reopen: true, BackJumps: true, Short: true, SynData: true, Wide: true}}, mkWith(true, true))
+		tcpsim.Run(c, tcpsim.RunCfg{Lifecycle: true, Bidir: true, Gen: tcpsim.GenCfg{MaxConns: 8, AllowNoEnd: true, AllowRST: true, CloseFlush: true, Reopen: true, BackJumps: true, Short: true, SynData: true, Wide: true, Drift: true}}, mkWith(true, true))
 	},
 }
 
